@@ -1261,9 +1261,14 @@ fn gen_c04(rng: &mut Rng, r: u64) -> Value {
         }
     }
     // sometimes the victim's bucket is already several KiB long (many earlier records with bulky metadata)
-    if rng.chance(1, 5) {
-        for i in 0..rng.range(14, 30) {
-            prelude.push(json!({"k":"api","op":"write","entry":"opts","key":0,"val":1,"opts":{"time":(10 + i).to_string(),"meta":{"pad":"p".repeat(260)}},"bin":"sync","mode":"sync"}));
+    if rng.chance(1, 4) {
+        // record sizes from a few hundred bytes to more than a page, so that any size-triggered behaviour of the
+        // index code is in force when the victim runs
+        let pad = *rng.pick(&[260usize, 1500, 5000, 9000]);
+        let n = if pad >= 5000 { rng.range(2, 5) } else { rng.range(8, 30) };
+        let fp = *rng.pick(&PURE);
+        for i in 0..n {
+            prelude.push(json!({"k":"api","op":"write","entry":"opts","key":0,"val":1,"opts":{"time":(10 + i).to_string(),"meta":{"pad":"p".repeat(pad)}},"bin":fp.0,"mode":fp.1}));
         }
     }
     let mut v = match rng.below(5) {
